@@ -5,7 +5,21 @@ props = [json.loads(l) for l in open('/verif/properties.jsonl')]
 L1 = ("Trusted: Coq kernel; hand-written model tied to /repo by the differential run (Rust harness on the real Server over "
       "InMemoryStorage and SqliteStorage vs the extracted model); extraction (ExtrOcamlBasic); OCaml driver; freshness of "
       "Uuid::new_v4 (oracle_ok) assumed in the theorems and checked on the real ids of every run.")
+L2 = ("Trusted: Coq kernel; hand-written HTTP model (Http.v) tied to /repo by running the real actix handlers in process "
+      "(App::new().configure(webserver.config) + test::call_service) against the extracted model; the CLASS of each request part "
+      "(id text form, content-type form, body chunking) is chosen by the generator, never parsed back by the harness; "
+      "actix-web's routing, extractors, middleware and body streaming are mirrored by hand, not modelled internally.")
 CLAIMS = {
+ "C06": ("proof", "Coq theorems: chunking irrelevant, the library receives exactly the concatenation for every size 1..MAX_SIZE (all chunk lists), the store returns what it was given with matching ids on both backends (C07/C11 instances), HTTP bodies carry it (encode); correspondence: length sweep across the SQLite page / overflow thresholds, byte classes, chunkings, versions and snapshots, both backends, re-read after reopen. The real-socket / chunked transfer-encoding part and BLOB binding are validated by the run only (partial).", "DESIGN.md 6 C06", L2,
+         "Coq proof + in-process HTTP differential run over payload sizes/classes/chunkings"),
+ "C14": ("proof", "Coq theorems C14_http_encodes_outcome (every HTTP history on both backends: response = default_headers (encode library-outcome), absence of headers included), per-endpoint encode lemmas for every backend and store, C14_encode_table; correspondence: every history through the real handlers and, as a twin, through the library on a second storage, compared via the table re-implemented from the property text, plus the extracted model.", "DESIGN.md 6 C14", L2,
+         "Coq proof + twin-run (HTTP vs library) differential test"),
+ "C15": ("proof", "Coq theorems: C15_malformed_4xx_no_effect (every refusal class: 4xx, empty storage-call trace, store unchanged, any backend/store), C15_limit_inclusive, C15_body_accepted_iff, C15_no_5xx (every HTTP history, both backends: status in {200,400,403,404,409,410}); correspondence: request grid (route x method x client-id form x path-id form x content-type form x body class incl. the 100 MiB limit +-1) against servers with state, dumps and raw rows before/after.", "DESIGN.md 6 C15", L2 + " Requests the HTTP parser rejects before routing are outside the application.",
+         "Coq proof + grammar-based request grid, differential"),
+ "C16": ("proof", "Coq theorems C16_unlisted_403_no_access (exactly 403, empty storage-call trace, store unchanged, all four endpoints, any backend/store), C16_unlisted_never_reaches_storage, C16_listed_transparent (same handler program as without a list); correspondence: allow-lists x endpoints x listed/unlisted/malformed ids with a logging storage (zero storage calls), unlisted client owning earlier data, listed clients twin-run against a list-free server.", "DESIGN.md 6 C16", L2,
+         "Coq proof + differential run with storage-call log and twin run"),
+ "C20": ("proof", "Thin: C20_cache_control_everywhere holds in the model because the default-headers wrapper encloses the whole routing function; the run checks the header on every response of a request grid (all routes incl. unknown, methods, refusals) and of protocol histories on the real handlers. Storage-fault 500s are covered by the C05 run.", "DESIGN.md 6 C20", L2,
+         "Coq proof (thin) + header check on every response of the HTTP explorations"),
  "C01": ("proof", "Coq theorems C01_parents_unique and C01_chain_walk for every history, every client, both backend models (refinement of an abstract store + chain invariant for every reachable state); correspondence: random adversarial multi-client histories with reopen on both real backends, end-to-end walks through the real get_child_version, compared with the extracted model and with a direct oracle.", "DESIGN.md 6 C01", L1,
          "Coq proof (invariant by induction over histories + backend refinement) + differential correspondence"),
  "C02": ("proof", "Coq theorems C02_add_version_cas / C02_accepted_is_stored / C02_rejected_no_effect for every history and backend; correspondence: every class of requested parent issued against replayed copies of visited states on both real backends with complete dumps of all clients before and after, compared with the extracted model and with a compare-and-append oracle written from the property text.", "DESIGN.md 6 C02", L1,
